@@ -21,6 +21,7 @@ import random
 from .common import Check
 
 MUT = "__mutable_default__"
+TYPE_IDS = {"int": 0, "str": 1, "any": 2}
 PREDS = {"falsy": 0, "none": 1}
 PRED_FN = {"falsy": lambda v: not v, "none": lambda v: v is None}
 OPT_DEFAULTS = {
@@ -140,9 +141,12 @@ def flatten(classes, t):
     cd = classes[t]
     o, at = eff_opts(classes, t)
     fields = {}
+    ann = {}
     for b in reversed(cd.get("bases") or []):
-        for fd in flatten(classes, b)["fields"]:
+        fb = flatten(classes, b)
+        for fd in fb["fields"]:
             fields[fkey(fd)] = fd
+        ann.update(fb["ann"])
     for a in cd.get("drops") or []:
         fields.pop(a, None)
     own_ci = bool((o or {}).get("case_insensitive"))
@@ -150,6 +154,11 @@ def flatten(classes, t):
     for fd in cd["fields"]:
         fd2 = dict(fd)
         fd2["ci"] = fd["ci"] if fd.get("ci") is not None else own_ci
+        if fd.get("type", "any") is not None:
+            fd2["type"] = ann[fd["attname"]] = fd.get("type", "any")
+        else:
+            # no annotation in this body: the type annotated in a base, however many levels up; else none at all
+            fd2["type"] = ann.get(fd["attname"], "none")
         fields[fkey(fd2)] = fd2
         own.append(fd2)
     # a dependency names a field of the class that declares it (by any of its keys); subclasses take it over as a
@@ -168,7 +177,7 @@ def flatten(classes, t):
                     break
             deps.append(hit if hit is not None else d)
         fd2["deps"] = deps
-    return {"fields": list(fields.values()), "opts": o, "addition_type": at}
+    return {"fields": list(fields.values()), "opts": o, "addition_type": at, "ann": ann}
 
 
 def flat(case):
@@ -183,8 +192,13 @@ def _build(cd, bases=(), name="K"):
     defaults = {}
     for fd in cd["fields"]:
         f, kw = _field(fd)
-        ns["__annotations__"][fd["attname"]] = T[fd.get("type", "any")]
-        ns[fd["attname"]] = f
+        if fd.get("type", "any") is not None:
+            ns["__annotations__"][fd["attname"]] = T[fd.get("type", "any")]
+        # else: assigned without annotation - the annotation is the one inherited from the bases, if any
+        if fd.get("bare"):
+            ns[fd["attname"]] = kw["default"]          # `limit = 20`: a bare default, no Field
+        else:
+            ns[fd["attname"]] = f
         if "default" in kw:
             defaults[fd["attname"]] = kw["default"]
     for a in cd.get("drops") or []:
@@ -329,24 +343,26 @@ def impl(case):
     res["df"], _ = _run(classes, target, built, runtime, data, True)
     res["ff"], _ = _run(classes, target, built, runtime, data, False)
     cd = flatten(classes, target)
-    # leaf conversions in isolation (World.fp / World.addConv)
+    # leaf conversions in isolation (World.fp / World.addConv), per declared type - not per field of the real parser
     values = {vtext(v): v for _, v in data}
-    fp = {}
-    parser = cls.__parser__
-    for fd in cd["fields"]:
-        pf = None
-        for f in parser.fields.values():
-            if f.attname == fd["attname"]:
-                pf = f
+    fpt = {}
+    for tn, T in _types().items():
         tab = {}
         for t, v in values.items():
             try:
-                r = copy.deepcopy(v) if not pf.type else type_transform(copy.deepcopy(v), pf.type)
-                tab[t] = vtext(r)
+                tab[t] = vtext(type_transform(copy.deepcopy(v), T))
             except Exception:
                 tab[t] = None
-        fp[fd["attname"]] = tab
-    res["fp"] = fp
+        fpt[tn] = tab
+    fpt["none"] = {t: t for t in values}
+    res["fpt"] = fpt
+    # the type each field of the real parser ended up with
+    from typing import Any
+    types = {}
+    for f in cls.__parser__.fields.values():
+        ty = f.type
+        types[f.attname] = "none" if ty is None else ("any" if ty is Any else getattr(ty, "__name__", repr(ty)))
+    res["types"] = types
     at = cd.get("addition_type")
     if at:
         tab = {}
@@ -392,7 +408,7 @@ def derive_field(fd, class_ci):
         req = False
     elif req is None:
         req = True
-    return {"attname": fd["attname"], "name": name, "acc": acc, "ci": ci, "required": req,
+    return {"attname": fd["attname"], "type": fd.get("type", "any") or "none", "name": name, "acc": acc, "ci": ci, "required": req,
             "default": fd.get("default"), "defer": bool(fd.get("defer")), "no_input": fd.get("no_input", False),
             "no_output": fd.get("no_output", False), "mode": fd.get("mode"), "deps": list(fd.get("deps") or []),
             "on_error": fd.get("on_error")}
@@ -409,7 +425,7 @@ def flag_on(fl, v, omode, fmode, static=False):
     return own or (omode is not None and fmode is not None and omode not in fmode)
 
 
-def contract(case, fp, addconv):
+def contract(case, fpt, addconv):
     cd = flat(case)
     copts = norm_opts(cd.get("opts"))
     o = norm_opts(case["runtime"]) if case.get("runtime") is not None else copts
@@ -454,7 +470,7 @@ def contract(case, fp, addconv):
             else:
                 if not o["ignore_alias_conflicts"] and any(vtext(x) != vtext(c) for x in cands[1:]):
                     fo["errs"].append(("AliasConflictError", f["name"]))
-                r = (fp.get(f["attname"]) or {}).get(vtext(c))
+                r = (fpt.get(f["type"]) or {}).get(vtext(c))
                 if r is not None:
                     fo["value"], fo["active"] = r, True
                 else:
@@ -633,7 +649,8 @@ def model_class(cd, ix):
         req = fd.get("required")
         d = fd.get("default")
         fields.append({
-            "attname": ix[fd["attname"]], "alias": ix[fd["alias"]] if fd.get("alias") else None,
+            "attname": ix[fd["attname"]], "ty": TYPE_IDS[fd.get("type", "any")] if fd.get("type", "any") is not None else None,
+            "alias": ix[fd["alias"]] if fd.get("alias") else None,
             "alias_from": [ix[a] for a in fd.get("alias_from") or []], "ci": fd.get("ci"),
             "required": modes(req) if isinstance(req, str) else req,
             "default": {"v": vtext(d["v"])} if d is not None else None, "defer": bool(fd.get("defer")),
@@ -653,17 +670,17 @@ def model_line(case, io, legacy=None):
     cd = flatten(classes, target)
     values = sorted({vtext(v) for _, v in case["data"]})
     fp = []
-    for fd in cd["fields"]:
-        tab = (io.get("fp") or {}).get(fd["attname"], {})
+    for tn, tid in TYPE_IDS.items():
+        tab = (io.get("fpt") or {}).get(tn, {})
         for t in values:
-            fp.append([ix[fd["attname"]], t, tab.get(t)])
+            fp.append([tid, t, tab.get(t)])
     pred = []
     for name, k in PREDS.items():
         for t in values:
             pred.append([k, t, bool(PRED_FN[name](json.loads(t)))])
     # predicates are also applied to stored values (no_output): parsed results and defaults
     extra = set()
-    for tab in (io.get("fp") or {}).values():
+    for tab in (io.get("fpt") or {}).values():
         extra.update(x for x in tab.values() if x is not None)
     for c in classes:
         for fd in c["fields"]:
@@ -855,7 +872,7 @@ def gen_data(rng: random.Random, cd, copts):
             pick += rng.sample(keys, min(len(keys), rng.choice([1, 2])))
         if rng.random() < 0.4:
             pick += [rng.choice(case_variants(rng, rng.choice(keys)) or keys)]
-        vals = VALUES[fd.get("type", "any")]
+        vals = VALUES[fd.get("type") if fd.get("type") in VALUES else "any"]
         kind = rng.random()
         if kind < 0.62:
             base = rng.choice(vals["good"])
@@ -926,14 +943,14 @@ def gen_hier_case(rng: random.Random):
     if bopts.get("addition") is True and rng.random() < 0.4:
         classes[0]["addition_type"] = rng.choice(["int", "str"])
     used = n0
-    nsub = rng.choice([1, 1, 2, 2, 3])
+    nsub = rng.choice([1, 2, 2, 3, 3])
     for j in range(1, nsub + 1):
         if j == 1:
             bases = [0]
         elif j == 2:
-            bases = [rng.choice([0, 1])]
+            bases = [1] if rng.random() < 0.7 else [0]
         else:
-            bases = [1, 2] if classes[2]["bases"] == [0] and rng.random() < 0.6 else [rng.choice([1, 2])]
+            bases = [1, 2] if classes[2]["bases"] == [0] and rng.random() < 0.6 else ([2] if rng.random() < 0.7 else [1])
         cd = {"bases": bases, "fields": []}
         if rng.random() < 0.65:
             o = gen_opts(rng, False)
@@ -953,13 +970,25 @@ def gen_hier_case(rng: random.Random):
         if used < 4 and rng.random() < 0.7:
             cd["fields"].append(gen_field(rng, used, 4))
             used += 1
-        if inherited and rng.random() < 0.4:
+        if inherited and rng.random() < (0.4 if j == 1 else 0.55):
             old = rng.choice(inherited)
+            far = [f for f in inherited if any(f["attname"] == g["attname"] for g in classes[0]["fields"])]
+            if j > 1 and far and rng.random() < 0.7:
+                old = rng.choice(far)       # declared two or more levels up
             new = gen_field(rng, 0, 4)
             new["attname"], new["alias"], new["type"] = old["attname"], old.get("alias"), old.get("type", "any")
             if rng.random() < 0.7:
                 new["ci"] = old.get("ci")
             new["alias_from"] = list(old.get("alias_from") or []) if rng.random() < 0.6 else []
+            if rng.random() < 0.55:
+                # no annotation in the subclass body: the inherited one (from whatever level) stays in force
+                new["type"] = None
+                if rng.random() < 0.45:
+                    # just a new default (`limit = 20`)
+                    new = {"attname": old["attname"], "type": None, "bare": True, "alias": None, "alias_from": [],
+                           "ci": None, "required": None, "default": {"v": rng.choice([5, "5", 0, 7]), "factory": False},
+                           "defer": False, "no_input": False, "no_output": False, "mode": None, "deps": [],
+                           "on_error": None}
             if field_ok(new) and all(f["attname"] != new["attname"] for f in cd["fields"]):
                 cd["fields"].append(new)
         if inherited and rng.random() < 0.12:
@@ -970,7 +999,7 @@ def gen_hier_case(rng: random.Random):
         # dependencies inside the subclass: on any field it has
         allf = inherited + cd["fields"]
         for fd in cd["fields"]:
-            if len(allf) > 1 and rng.random() < 0.25:
+            if len(allf) > 1 and rng.random() < 0.25 and not fd.get("bare"):
                 t = rng.choice([f for f in allf if f["attname"] != fd["attname"]] or allf)
                 fd["deps"] = [rng.choice([t["attname"], t.get("alias") or t["attname"]] + list(t.get("alias_from") or []))]
         classes.append(cd)
@@ -1119,6 +1148,13 @@ class C05(Check):
             # the theorems' hypothesis `Parser.wf` is meant to be exactly "ClassParser.setup raises no ConfigError"
             return "the code accepts a declaration the model's well-formedness rejects"
         keys = mo["_keys"]
+        # which type each field of the class ended up with (an annotation is inherited through every level)
+        tn = {v: k for k, v in TYPE_IDS.items()}
+        want_t = {keys[f["attname"]]: (tn[f["ty"]] if f["ty"] is not None else "none") for f in mo["fields"]}
+        # (an `Any` annotation is kept as the bare Rule class, which converts nothing - like no annotation at all)
+        norm = lambda d: {k: ("none" if v in ("any", "Rule") else v) for k, v in d.items()}
+        if norm(want_t) != norm(io.get("types") or {}):
+            return f"field types: implementation {io.get('types')} vs model {want_t}"
         for k in keys:           # the theorems' hypothesis LowerLaws, on the keys of this case
             if k.lower().lower() != k.lower() or (k.islower() and k.lower() != k):
                 return f"LowerLaws does not hold for key {k!r}"
@@ -1129,7 +1165,7 @@ class C05(Check):
         return None
 
     def want(self, case, io):
-        return contract(case, io.get("fp") or {}, io.get("addconv") or {})
+        return contract(case, io.get("fpt") or {}, io.get("addconv") or {})
 
     def spec(self, case, io, mo):
         if not isinstance(io, dict) or "out" not in io:
